@@ -22,6 +22,11 @@ CHECKS = {
          'Every scenario of the product kind {sent, received, invoice payer, invoice issuer, late-locked, self-send sent/received side, sent spending an unconfirmed output (min_conf 0)} x change count {0,1,2} x stage {early, mid, finalized-not-posted} x other pending transactions {0,1,3} x addressing {log id, slate id} (quick: a stated sub-product) plus five refusal cases is executed on a real chain and real LMDB wallets; snapshots before creation, before cancel and after cancel are compared against the exact diff the statement allows (outputs, log entries, contexts, balances at min_conf 0/1/10, counterparty untouched).',
          'Scenario space is a fixed finite product; a refused cancel of a cancellable transaction is an outcome, not a violation.',
          'DESIGN.md §3 C05'),
+ 'C06': ('fault_enumeration',
+         'exhaustive crash-point and write-fault enumeration at the persistent-effect seam of the real wallet',
+         'For 11 scenarios (send, receive, invoice payer/issuer, late-lock, cancel, confirming refresh, scan repairs with and without delete_unconfirmed, coinbase, self-send) a clean run counts the persistent effects (LMDB commits, key-index bumps, stored-tx writes) observed by a decorator around the real LMDB backend; then every effect index x {crash before, error return}, for stored-tx writes also crash-after and torn writes (quick: 6 boundary lengths; thorough: every length), is executed. After each: all handles dropped, directories reopened, every query must answer without unwinding, every Locked output must belong to a live TxSent entry, reservations must be all-or-nothing, every pending entry must be cancellable and the spendable balance must return to the clean run\'s. Plus every truncation length of wallet.seed.',
+         'Crash = process death between two effects at the WalletBackend seam; atomicity of one LMDB commit is trusted; power-loss reordering not modelled.',
+         'DESIGN.md §3 C06'),
  'C07': ('model_checking',
          'explicit-state breadth-first search over request sequences on the real foreign API with a full-store diff oracle',
          'From 4 base states of the target wallet (funded; pending outgoing send; pending incoming; issued invoice) every sequence of <=2 (quick) / <=3 (thorough) requests from a 47-request alphabet (check_version; build_coinbase with 6 key-id classes; receive_tx with honest and 22 single-field-mutated slates, echoed own/already-received/invoice slates, unknown and other destination accounts, return address; finalize_tx with unrelated, echoed, forged, stripped and re-stated replies; the two exempted valid replies as controls) is executed on grin_wallet_api::Foreign, a third of them through the JSON-RPC handler. Oracle per call: exact diff of outputs, log entries, stored contexts and indices; only "one unconfirmed output + one receive entry" / "one coinbase candidate" may appear; replays are refused; spendable never decreases.',
